@@ -37,9 +37,16 @@ TOL = 1e-10
 
 
 def bounds(tier):
-    return {"D=1": "m,n in 1..5, strides 1..3", "D=2": "m,n in {1,2,3}^2, strides {1,2,3}^2 (thorough) / 5 stride vectors (quick)",
-            "D=3": "m,n in {1,2}^3, strides in {1,2}^3 (thorough) / 3 stride vectors (quick)",
+    if tier == "thorough":
+        return {"D=1": "m,n in 1..9, strides 1..5", "D=2": "m,n in {1,2,3,4}^2, strides {1,2,3}^2",
+                "D=3": "m,n in {1,2,3}^3 (3x3x3-by-3x3x3 corner thinned to a third), strides {1,2}^3 for lengths <= 2, 2 stride vectors beyond",
+                "batch": [[], [2]], "channels": "(ci,co) in {1,2,3}^2 on D=1 with m,n<=5, {1,2}^2 on four D=2 and two D=3 shape pairs",
+                "modes": ["full", "valid"], "dtype": ["complex", "real", "real data x complex filter", "complex data x real filter"],
+                "probes": "all basis pairs; structured values; mixed dtypes; component-wise accuracy; Linop adjoints"}
+    return {"D=1": "m,n in 1..5, strides 1..3", "D=2": "m,n in {1,2,3}^2, 6 stride vectors",
+            "D=3": "m,n in {1,2}^3, 4 stride vectors",
             "batch": [[], [2]], "channels": "(ci,co) in {1,2}^2 on D=1 all shapes with m,n<=3 and four D=2 shape pairs",
+            "probes": "all basis pairs; structured values; mixed dtypes; component-wise accuracy; Linop adjoints",
             "modes": ["full", "valid"], "dtype": ["complex", "real", "real data x complex filter", "complex data x real filter"]}
 
 
@@ -50,25 +57,27 @@ def gen_cases(tier, seed):
     def add(m, n, mode, st, batch=(), mc=None, dt="cc"):
         cases.append(dict(kind="conv", m=list(m), n=list(n), mode=mode, strides=None if st is None else list(st),
                           batch=list(batch), mc=mc, dtype=dt))
-    for m in range(1, 6):
-        for n in range(1, 6):
+    L1 = range(1, 10) if T else range(1, 6)
+    for m in L1:
+        for n in L1:
             for mode in ("full", "valid"):
-                for st in (None, [1], [2], [3]):
+                for st in ((None, [1], [2], [3], [4], [5]) if T else (None, [1], [2], [3])):
                     for dt in ("cc", "rr", "rc", "cr"):
                         if dt in ("rc", "cr") and st not in (None, [2]):
                             continue
                         add([m], [n], mode, st, dt=dt)
                     add([m], [n], mode, st, batch=[2])
-                    if m <= 3 and n <= 3:
-                        for ci, co in itertools.product((1, 2), repeat=2):
+                    if (m <= 3 and n <= 3) or (T and m <= 5 and n <= 5):
+                        for ci, co in itertools.product((1, 2, 3) if T else (1, 2), repeat=2):
                             add([m], [n], mode, st, mc=[ci, co])
                             if st in (None, [2]):
                                 add([m], [n], mode, st, batch=[2], mc=[ci, co])
     st2 = [None] + [list(s) for s in itertools.product((1, 2, 3), repeat=2)]
     if not T:
         st2 = [None, [1, 2], [2, 1], [2, 2], [3, 2], [1, 3], [3, 3]]
-    for m in itertools.product((1, 2, 3), repeat=2):
-        for n in itertools.product((1, 2, 3), repeat=2):
+    L2 = (1, 2, 3, 4) if T else (1, 2, 3)
+    for m in itertools.product(L2, repeat=2):
+        for n in itertools.product(L2, repeat=2):
             for mode in ("full", "valid"):
                 for st in st2:
                     add(m, n, mode, st)
@@ -84,10 +93,13 @@ def gen_cases(tier, seed):
     st3 = [None] + [list(s) for s in itertools.product((1, 2), repeat=3)]
     if not T:
         st3 = [None, [2, 1, 2], [1, 2, 1], [2, 2, 2], [1, 1, 2]]
-    for m in itertools.product((1, 2), repeat=3):
-        for n in itertools.product((1, 2), repeat=3):
+    L3 = (1, 2, 3) if T else (1, 2)
+    for m in itertools.product(L3, repeat=3):
+        for n in itertools.product(L3, repeat=3):
+            if T and max(m) == 3 and max(n) == 3 and (sum(m) + sum(n)) % 3:
+                continue      # thinned: the 3x3x3-by-3x3x3 corner
             for mode in ("full", "valid"):
-                for st in st3:
+                for st in (st3 if max(m + n) <= 2 else [None, [2, 1, 2]]):
                     add(m, n, mode, st)
     if T:
         for m, n in (((3, 2, 2), (2, 2, 1)), ((2, 2, 2), (3, 2, 3))):
